@@ -22,6 +22,13 @@ def isNullSer (ts : Types) (a : Atlas) (trs : Trs) (id : Nat) (v : Val) : Bool :
   | [t] => (match t.body with | .null => true | _ => false)
   | _ => false
 
+/-- does the value serialize as a single `null` token that carries no tag?  (A tagged null still names its
+    registered type: an untyped slot reconstructs that type from it wherever tags survive, i.e. not in JSON.) -/
+def isBareNullSer (fmt : Fmt) (ts : Types) (a : Atlas) (trs : Trs) (id : Nat) (v : Val) : Bool :=
+  match (marshalV ts a trs 1000 id v).toks with
+  | [t] => (match t.body with | .null => (t.tag.isNone || fmt == .json) | _ => false)
+  | _ => false
+
 /-- what an untyped slot holds after reading a number written from `bits` (a float) -/
 def normFloatIface (fmt : Fmt) (it : IfaceTys) (bits : Nat) : Nat × Val :=
   match fmt with
@@ -70,7 +77,7 @@ mutual
       | .wildcard =>
         (match v with
          | .iface (some (dt, dv)) =>
-           if isNullSer ts a trs dt dv then .iface none else
+           if isBareNullSer fmt ts a trs dt dv then .iface none else
            let (_, dbase) := peel ts 64 0 dt
            (match pickBare ts a dbase, derefN (peel ts 64 0 dt).1 dv with
             | .prim, some pv =>
